@@ -10,6 +10,7 @@ def run(ctx):
         return seqcommon.replay(ctx, "C07")
     ok = ctx.coq_stage()
     seqcommon.seq_stage(ctx, "C07")
+    seqtie.initfile_stage(ctx, None, "C07")     # T1 stage "boot on an adversarial state file" (Model/SeqFile.v)
     prof = seqcommon.prof(weights={"try": 30, "lock": 8, "unl": 20, "ren": 8, "adv": 22, "probe": 4, "restart": 1, "disc": 3},
                           names=[seqcommon.H("a"), seqcommon.H("ab"), seqcommon.H("b")],
                           sizes=[None, 1, 2, 3, 2, 1, 0, -1], lts=[None, 0, 1, 3, -1], wts=[None, 0, 1],
